@@ -658,6 +658,12 @@ func checkTx(r *simnet.Replica, tx []byte) {
 	r.App.CheckTx(&abci.RequestCheckTx{Tx: tx, Type: abci.CheckTxType_New})
 }
 
+func prepareProposal(r *simnet.Replica, h int64, t time.Time, proposer []byte) (ok bool) {
+	defer func() { recover() }()
+	_, err := r.App.PrepareProposal(&abci.RequestPrepareProposal{MaxTxBytes: 1 << 20, Height: h, Time: t, ProposerAddress: proposer})
+	return err == nil
+}
+
 func outcome(t simnet.TxResult) string {
 	switch {
 	case t.Code == 0:
@@ -686,6 +692,13 @@ func (w *world) block(st simcore.Step, dt time.Duration, inBurst bool) {
 	blk := &simnet.Block{Height: w.h, Time: w.now, Txs: txs, Proposer: proposer, Votes: votes}
 	for _, tx := range txs {
 		checkTx(w.B, tx) // B learns the transactions through its mempool, A and C only from the block
+	}
+	if w.h%3 == 0 {
+		// B is also asked for a proposal of its own that is never decided (a round that times out): the block-sdk
+		// proposal handler runs the ante handlers of the lanes over B's mempool on a branch that is dropped
+		if prepareProposal(w.B, w.h, w.now, proposer) {
+			run.Fault("undecided-proposal-prepared-on-B")
+		}
 	}
 	ra := w.A.FinalizeAndCommit(blk)
 	rb := w.B.FinalizeAndCommit(blk)
